@@ -611,3 +611,7 @@ def multipart_bodies(soap_body):
             b'--x\r\nContent-Type: \xff\r\nContent-Id: <\x00>\r\n\r\n' + soap_body + b'\r\n--x--',
             b'--x\r\n' + p + soap_body + b'\r\n--x\r\nContent-Type: application/octet-stream\r\nContent-Id: <b>\r\n\r\n\x00\xff\r\n--x--',
             b'--x\r\nContent-Type: multipart/related; boundary=x\r\n\r\n--x\r\n' + p + soap_body + b'\r\n--x--\r\n--x--']
+
+# msgpack-rpc requests to bare methods (MessagePackRpc does not support them: known finding)
+CORPUS_MPRPC_BARE = [b'\x94\x00\x01\xa3bdu\xc0', b'\x94\x00\x01\xa2bi\x91\x05', b'\x94\x00\x01\xa2bi\xc0', b'\x94\x00\x01\xa2bc\x91\x81\xa1a\x01',
+                     b'\x93\x00\x01\xa2ba']
